@@ -22,8 +22,9 @@ theorem expireWith_done_false {s s' : St} {now : Nat} {r : DelayQ × DelayQ.Poll
     · rename_i en hf
       split at h
       · unfold Client.rearm at h
-        rcases rearmWith_cases s e.val (now - e.whenMs * nsPerMs + clampTimeout (en.remainder - (now - e.whenMs * nsPerMs)))
-            (q.insert now (clampTimeout (en.remainder - (now - e.whenMs * nsPerMs))) e.val) with
+        rcases rearmWith_cases s e.val (now - en.dueAt + clampTimeout (en.remainder - (now - en.dueAt)))
+            (now + clampTimeout (en.remainder - (now - en.dueAt)))
+            (q.insert now (clampTimeout (en.remainder - (now - en.dueAt))) e.val) with
           ⟨q', w, _, hrw⟩ | ⟨q', key, w, _, hrw⟩
         · rw [hrw] at h
           simp only [ExpStep.done.injEq, and_true] at h
@@ -203,16 +204,9 @@ theorem pollDispatchKeep_idle (hc : QClosed now DelayQ.Complete) {s : St} (hq : 
     DelayQ.Idle now (pollDispatchKeep s now).timers := by
   have hcore := pollDispatchCore_idle hc (s := { s with dWoken := false }) hq
   rw [Flow.pollDispatchKeep_eq, if_neg (by simp [hrun])] at hd hp ⊢
-  have hsd : s.done = none := by
-    simp only [Bool.or_eq_false_iff, Option.isSome_eq_false_iff, Option.isNone_iff_eq_none] at hrun
-    exact hrun.1.2
   rcases hcc : pollDispatchCore { s with dWoken := false } now with ⟨s1, r⟩
   rw [hcc] at hd hp hcore
   simp only at hd hp hcore ⊢
-  have hd1 : (Flow.keepFinish s.obs s1 r).done = s1.done := by
-    unfold Flow.keepFinish; split
-    · rfl
-    · split <;> rfl
   have hr : r = .pending := by
     cases r <;> simp [Flow.keepDone] at hd ⊢
   subst hr
